@@ -326,6 +326,9 @@ S = "d42/declaration/types/_str_schema.py"
 I = "d42/declaration/types/_int_schema.py"
 L = "d42/declaration/types/_list_schema.py"
 MUTANTS = [
+    {"name": "a declared opposite bound shadows the check against the fixed value", "rule": "VALCHK",
+     "edits": [(I, "        if (self.props.value is not Nil) and (value > self.props.value):\n            raise make_incorrect_min_error(self, self.props.value, value)\n", "        upper = self.props.max if (self.props.max is not Nil) else self.props.value\n        if (upper is not Nil) and (value > upper):\n            raise make_incorrect_min_error(self, upper, value)\n"),
+               (I, "        if (self.props.value is not Nil) and (value < self.props.value):\n            raise make_incorrect_max_error(self, self.props.value, value)\n", "        lower = self.props.min if (self.props.min is not Nil) else self.props.value\n        if (lower is not Nil) and (value < lower):\n            raise make_incorrect_max_error(self, lower, value)\n")]},
     {"name": "value-vs-alphabet check deleted", "rule": "VALCHK",
      "edits": [(S, "        if self.props.value is not Nil:\n            missing_letters = {x for x in self.props.value if x not in letters}\n            if len(missing_letters) > 0:\n                message = f\"`{self!r}` alphabet is missing letters: \"\n                message += repr(\"\".join(sorted(missing_letters)))\n                raise DeclarationError(message)\n\n", "")]},
     {"name": "isinstance guard of IntSchema.min deleted", "rule": "ONLY-DECLARATIONERROR",
